@@ -255,6 +255,10 @@ func VC36_Reload() {
 	bgpSrv = reloaded
 	c1 := &bgpConfigurator{srv: reloaded, vrfReg: reg}
 	vAssert(c1.configure(cfgA) == nil, "C36.configure.a")
+	if vParam("steps") == 3 {
+		// one more configuration in between: A, A', B
+		vAssert(c1.configure(c36Config()) == nil, "C36.configure.a2")
+	}
 	vAssert(c1.configure(cfgB) == nil, "C36.configure.b")
 	bgpSrv = fresh
 	c2 := &bgpConfigurator{srv: fresh, vrfReg: reg}
